@@ -13,6 +13,12 @@ CLAIMED = {
  "C20": ("model_checking", "exact real arithmetic with rational functions (NRA) for algebra/inverse/primaries; bit-precise float64 queries for exact singularity",
          "Matrix algebra equals the textbook definitions for all reals; M*Inverse(M)=Inverse(M)*M=I for |det|>=1e-3; generated primaries matrices map (1,1,1) to the white point and unit primaries to their chromaticities for all non-degenerate triangles; Inverse panics on zero/equal-column float64 matrices.",
          "Trusted: executor, solvers, rounding budget for the real parts. Not machine-checked: non-singularity of generated matrices (inverse relation follows from the generic inverse theorem when Inverse returns); equal columns 0=2.", "DESIGN.md 5 C20"),
+ "C03": ("model_checking", "symbolic execution of ToXYZ/ColorFromXYZ in real arithmetic with one rounding-error variable per float32 operation (signs resolved by interval analysis: linear arithmetic); ground checks of declared constants",
+         "For all linear colours in [0,1]^3 and [-1,2]^3 and all four spaces: ToXYZ and ColorFromXYZ are within 1e-6..6e-6 of the reference matrix built independently from the declared chromaticities (and its inverse), both round trips return the input within 2e-6 (proportional bound on the wide box), declared chromaticities match the published ones, (1,1,1) and unit primaries map to the declared white and primaries within 1e-6.",
+         "Trusted: executor, solvers, the standard model of IEEE rounding (|e| <= u|x| + eta), textbook reference construction in the harness evaluated in float64.", "DESIGN.md 5 C03"),
+ "C04": ("model_checking", "stage decomposition; C04's own obligation (linear stage of the pipeline for all 16 ordered pairs) by symbolic execution with rounding-error variables in linear arithmetic",
+         "For every ordered pair and every linear source colour the pipeline's linear stage is within 4e-6 of the independent colorimetric reference A_ref*d (identity for a space to itself); with the decode (C01), encode (C02) and alpha (C14) contracts this bounds the per-channel code error as stated in evidence.",
+         "Trusted: executor, solvers, rounding model; the glue from stage contracts to the end-to-end statement is arithmetic on the proven bounds (stated, not a query over code).", "DESIGN.md 5 C04"),
  "C05": ("model_checking", "bounded symbolic execution of the real loaders (go/ssa -> SMT-LIB2 bit-vectors, z3)",
          "Every metadata field is proved equal to the container specification's bytes by an unsat verdict over all values of every symbolic header/payload byte of the skeleton files; bounded by skeleton shape (<=2 ancillary chunks/segments, payloads <=5 bytes).",
          "Trusted: go/ssa construction, the gosym executor (cross-validated natively on sampled path models each run), z3 4.8.12. Oracle is the PNG/JPEG/RIFF-WebP byte layout written in the harness, not DecodeConfig.", "DESIGN.md 5 C05"),
